@@ -28,6 +28,15 @@ def gen_opts(rng):
             "p_handicap": 0.2}       # runners that are a selection id PLUS a handicap: the runner context is keyed by both
 
 
+def own_elapsed(then):
+    # seconds since `then` on the (simulated) clock, computed here and not read from the runner context: sub-second gaps count, and so
+    # does a gap of exactly zero (a trade that completes at an update and a placement in the callback of that same update)
+    import datetime
+    if then is None:
+        return None
+    return (datetime.datetime.utcnow() - then).total_seconds()
+
+
 class Oracle(simcheck.BaseOracle):
     def __init__(self, sc):
         super().__init__(sc)
@@ -42,7 +51,7 @@ class Oracle(simcheck.BaseOracle):
             ctx = order.trade.strategy._invested.get(order.lookup)
             self.pre = (order, None) if ctx is None else (
                 order, {"live": order.trade.id in ctx.live_trades, "known": order.trade.id in ctx.trades,
-                        "reset": ctx.reset_elapsed_seconds, "placed": ctx.placed_elapsed_seconds,
+                        "reset": own_elapsed(ctx.datetime_last_reset), "placed": own_elapsed(ctx.datetime_last_placed),
                         "n_live": ctx.live_trade_count, "n": ctx.trade_count})
 
     def on_action(self, run, sidx, market, a, result, order):
@@ -64,12 +73,24 @@ class Oracle(simcheck.BaseOracle):
                     self.add("max-live-trade-count-exceeded", "strategy %d runner %s: live_trade_count %d > max %d after an accepted placement" % (
                         sidx, order.lookup, ctx.live_trade_count, st.max_live_trade_count))
                 if pre is not None and not shortcut:
-                    if pre["reset"] and pre["reset"] < order.trade.reset_seconds:
+                    if pre["reset"] is not None and pre["reset"] < order.trade.reset_seconds:
                         self.add("cool-down-ignored", "strategy %d runner %s: order accepted %.3fs after the last reset, reset_seconds %s" % (
                             sidx, order.lookup, pre["reset"], order.trade.reset_seconds))
-                    if pre["placed"] and pre["placed"] < order.trade.place_reset_seconds:
+                    if pre["placed"] is not None and pre["placed"] < order.trade.place_reset_seconds:
                         self.add("cool-down-ignored", "strategy %d runner %s: order accepted %.3fs after the last placement, place_reset_seconds %s" % (
                             sidx, order.lookup, pre["placed"], order.trade.place_reset_seconds))
+
+        if a[0] == "place" and result.startswith("False") and order is not None and getattr(self, "pre", None) and self.pre[0] is order \
+                and self.pre[1] is not None:
+            # refused by a cool-down: then the clock really is inside that window (otherwise the strategy is locked out of a runner
+            # it may trade again)
+            pre, msg = self.pre[1], order.violation_msg or ""
+            if "reset_elapsed_seconds" in msg and (pre["reset"] is None or pre["reset"] >= order.trade.reset_seconds):
+                self.add("refused-outside-the-cool-down", "strategy %d runner %s: order refused (%s) %ss after the last reset, reset_seconds %s" % (
+                    sidx, order.lookup, msg[-60:], pre["reset"], order.trade.reset_seconds))
+            if "placed_elapsed_seconds" in msg and (pre["placed"] is None or pre["placed"] >= order.trade.place_reset_seconds):
+                self.add("refused-outside-the-cool-down", "strategy %d runner %s: order refused (%s) %ss after the last placement, place_reset_seconds %s" % (
+                    sidx, order.lookup, msg[-60:], pre["placed"], order.trade.place_reset_seconds))
 
     def recount(self, run, where):
         for si, st in enumerate(run.strategies):
